@@ -283,6 +283,8 @@ pub fn scenario(g: &mut G, ctx: &RunCtx) -> RunReport {
         chunk_specs: chunks.clone(),
         last_chunk_line: b"0".to_vec(),
         lf_line_endings: false,
+        twin: false,
+        send_on_other_thread: false,
         garbage: 0,
         declared_len: wire_body.len(),
         script: Script::from_wire(&wire.bytes, &segs, End::Fin),
